@@ -167,7 +167,7 @@ func (rr *SIG) Verify(k *KEY, buf []byte) error {
 	hashed := h.Sum(nil)
 	sig := buf[sigend:]
 	switch k.Algorithm {
-	case RSASHA1, RSASHA256, RSASHA512:
+	case RSASHA1, RSASHA1NSEC3SHA1, RSASHA256, RSASHA512:
 		pk := k.publicKeyRSA()
 		if pk != nil {
 			return rsa.VerifyPKCS1v15(pk, cryptohash, hashed, sig)
